@@ -301,9 +301,7 @@ func (w *World) Totals(name string) {
 		return
 	}
 	wn, wb := w.M.Cur.Colls[name].Totals()
-	if w.CBMask&CBFramed != 0 {
-		b = wb // byte totals mix stored and in-memory lengths under a transforming pair: not specified, not compared
-	}
+	b = w.normBytes(b, wb, n)
 	if err != nil || n != wn || b != wb {
 		w.Fail("model", "totals", "%s = (%d,%d,%v), model (%d,%d)", label, n, b, err, wn, wb)
 	}
